@@ -224,6 +224,8 @@ SEL_JOURNAL = """2024-01-01 'x
 
 
 def journal_text(c):
+    if "journal_text" in c:          # a replayed case: the text as stored (its transactions' structure is not kept in the replay file)
+        return c["journal_text"]
     return J.print_journal(c["txns"], meta_order=c.get("meta_order", "ult"))
 
 
@@ -427,7 +429,7 @@ def run_cases(run, cases):
 
 
 def replay_obj(c):
-    o = {"case": {k: c[k] for k in c if k not in ("txns", "impl", "flags", "texts", "obs")}, "implementation_output": c.get("impl"),
+    o = {"case": {k: c[k] for k in c if k not in ("txns", "impl", "flags", "texts", "obs", "journal_text")}, "implementation_output": c.get("impl"),
          "requests": requests_of(c)}
     if c["kind"] == "journal":
         o["journal"] = journal_text(c)
@@ -445,6 +447,23 @@ def main(run):
     cases += [gen_selector_case(run) for _ in range(ns)]
     meta, vals, py_viol, stages, tagc, kinds, chan = run_cases(run, cases)
     distinct = set()
+    judge(run, cases, meta, vals, py_viol, distinct)
+    for f in load_findings("C09"):
+        if f.get("status") == "open":
+            run.known_finding(f.get("what", f.get("id", "")))
+    run.cov["distinct_nontrivial"] = len(distinct)
+    run.cov["rule"] = ("journals of 1-12 transactions with mixed-case uuids (reused among selected / unselected / across, same uuid in another letter case, one-digit neighbours, "
+                       "missing, malformed), 6 filter shapes + uuid filter, effective audit mode on/off set through the configuration file and/or a session override (all file x override combinations, the model gets the effective mode), the five algorithms and unsupported names; selection observed with audit off; "
+                       "reported digest compared with hashlib over the independently built pre-image, which Coq compares with the model's pre-image (H := identity) and the oracle; "
+                       "selector lists (0-7 patterns incl. wrapped, repeated, non-ASCII, empty) through balance/register/balance-group/equity, via overlap / report / per-report configuration; "
+                       "non-trivial = a digest was reported; distinct = distinct digests")
+    run.notes.update({"stages": stages, "injected": tagc, "observations": kinds, "audit_channels": chan, "corpus_cases": sum(1 for c in cases if c["src"] != "gen")})
+    import t04_text   # extra stage (extension T04): the metadata TEXT block against MetaText.v, byte for byte
+    t04_text.run_text_stage(run, n=(30 if run.tier == "quick" else 400))
+    return run.finish(info)
+
+
+def judge(run, cases, meta, vals, py_viol, distinct):
     for (ci, what), v in zip(meta, vals):
         c = cases[ci]
         bits = as_N(v)
@@ -474,32 +493,31 @@ def main(run):
                           found_input=False)
     for ci, viol in py_viol:
         run.violation(viol, replay_obj(cases[ci]))
-    for f in load_findings("C09"):
-        if f.get("status") == "open":
-            run.known_finding(f.get("what", f.get("id", "")))
-    run.cov["distinct_nontrivial"] = len(distinct)
-    run.cov["rule"] = ("journals of 1-12 transactions with mixed-case uuids (reused among selected / unselected / across, same uuid in another letter case, one-digit neighbours, "
-                       "missing, malformed), 6 filter shapes + uuid filter, effective audit mode on/off set through the configuration file and/or a session override (all file x override combinations, the model gets the effective mode), the five algorithms and unsupported names; selection observed with audit off; "
-                       "reported digest compared with hashlib over the independently built pre-image, which Coq compares with the model's pre-image (H := identity) and the oracle; "
-                       "selector lists (0-7 patterns incl. wrapped, repeated, non-ASCII, empty) through balance/register/balance-group/equity, via overlap / report / per-report configuration; "
-                       "non-trivial = a digest was reported; distinct = distinct digests")
-    run.notes.update({"stages": stages, "injected": tagc, "observations": kinds, "audit_channels": chan, "corpus_cases": sum(1 for c in cases if c["src"] != "gen")})
-    import t04_text   # extra stage (extension T04): the metadata TEXT block against MetaText.v, byte for byte
-    t04_text.run_text_stage(run, n=(30 if run.tier == "quick" else 400))
-    return run.finish(info)
 
 
 def replay(run, path):
-    j = json.load(open(path))
-    rep = j.get("replay", j)
-    print(json.dumps({k: rep[k] for k in rep if k != "requests"}, indent=1, ensure_ascii=False)[:6000])
-    reqs = rep.get("requests")
-    if reqs:
-        harness_build()
-        for rr in harness_run(copy.deepcopy(reqs)):
-            if rr and rr.get("stage") == "done":
-                for x in rr["results"]:
-                    if isinstance(x.get("ok"), list):
-                        x["ok"] = [{"desc": t.get("desc"), "uuid": t.get("uuid")} for t in x["ok"]]
-            print(json.dumps(rr, indent=1, ensure_ascii=False)[:3000])
-    return 0
+    """the stored case (journal text + uuid texts + filter + audit channel, or selector list + operation + channel) through
+    the same requests, observation, c09_case / c09_sel_case / c09_text_case and judge; replays of the T04 text stage go to
+    t04.replay (common.replay_begin)"""
+    j, rp, rc = replay_begin(run, path)
+    if rc is not None:
+        return rc
+    c = rp.get("case")
+    if not (isinstance(c, dict) and c.get("kind") in ("journal", "selector") and "hash" in c and
+            (c["kind"] == "selector" or (isinstance(rp.get("journal"), str) and "raws" in c))):
+        return replay_print(j)
+    print(j.get("what"))
+    c = copy.deepcopy(c)
+    c.setdefault("tags", []); c["src"] = "replay"
+    if c["kind"] == "journal":
+        c["journal_text"] = rp["journal"]
+        c.setdefault("filter", rp.get("filter"))
+        print("journal:\n%s\nfilter: %s" % (c["journal_text"], json.dumps(c.get("filter"))))
+    print(json.dumps({k: v for k, v in c.items() if k not in ("journal_text",)}, ensure_ascii=False)[:3000])
+    corr_build("C09")
+    harness_build()
+    cases = [c]
+    meta, vals, py_viol, stages, tagc, kinds, chan = run_cases(run, cases)
+    print("implementation now: %s" % json.dumps(c.get("impl"), ensure_ascii=False)[:3000])
+    judge(run, cases, meta, vals, py_viol, set())
+    return replay_verdict(run, path, j, "the stored %s case is as specified now (observation %s, stages %s) and the model agrees" % (c["kind"], c.get("obs"), stages))
